@@ -3,7 +3,7 @@ import os, sys, json, time, importlib, concurrent.futures as cf, traceback
 from . import sync, kani
 
 VERIF = sync.VERIF
-EVID = os.path.join(VERIF, "evidence")
+EVID = os.environ.get("VERIF_EVIDENCE") or os.path.join(VERIF, "evidence")
 KF_FILE = os.path.join(VERIF, "known_findings.json")
 
 
